@@ -124,7 +124,11 @@ func AsmProperty(impl AsmImpl) Property {
 			dir, _ := os.MkdirTemp("", "verif-asm-")
 			defer os.RemoveAll(dir)
 			path := filepath.Join(dir, "zz.go")
-			_, ferr := impl.Format(raw)
+			if len(raw)%2 == 0 {
+				// regenerating in place: a longer file from an earlier run is already there
+				os.WriteFile(path, []byte("package old\n\n"+strings.Repeat("// left over from an earlier, longer output\n", 200)), 0o644)
+			}
+			formattedWant, ferr := impl.Format(raw)
 			if B01(ferr != nil) != f[8] {
 				fail("facts-stale", "the format-fails flag in the line is stale (harness)")
 			}
@@ -141,6 +145,9 @@ func AsmProperty(impl AsmImpl) Property {
 			}
 			if err != nil {
 				fail("valid-input-does-not-format", fmt.Sprintf("AssembleFile failed on valid contributions: %v", err))
+			} else if rerr != nil || !bytes.Equal(content, formattedWant) {
+				fail("file-is-not-the-formatted-text", fmt.Sprintf("AssembleFile left %d bytes on disk, the formatted text has %d (a previous file at the path: %v); tail %q",
+					len(content), len(formattedWant), len(raw)%2 == 0, Trunc(string(content[minInt(len(content), len(formattedWant)):]), 120)))
 			}
 			return "err=" + B01(err != nil), fails
 		}
@@ -359,4 +366,11 @@ func asmGen(c *Ctx, impl AsmImpl) {
 				Meta{Nontrivial: true, NoModel: true, Features: []string{"default-package-headers"}})
 		}
 	}
+}
+
+func minInt(a, b int) int {
+	if a < b {
+		return a
+	}
+	return b
 }
